@@ -1082,6 +1082,9 @@ func ParseExecBlock(p *ParserZH, mainIndent int) *syntax.ExecBlock {
 			p.unsetStmtCompleteFlag()
 			if match, _ := p.tryConsume(TypeCatchErrorW); match {
 				execBlock.CatchBlock = append(execBlock.CatchBlock, ParseCatchErrorStmt(p))
+			} else {
+				// only catch blocks are allowed after the first catch block
+				panic(p.getInvalidSyntaxPeek())
 			}
 		}
 	})
